@@ -2,7 +2,7 @@
 //! properties: C06
 //! note: recognising which of the 2^48 commitments a confirmed transaction is: the obscured commitment number written into the sequence and locktime fields by CommitmentTransaction::build_inputs / make_transaction is read back exactly by ChannelMonitorImpl::check_spend_counterparty_transaction, for every commitment number and every obscuring factor
 //! trusted: R15 (deep slices): build_inputs (pubkeys, TxIn construction), make_transaction and check_spend_counterparty_transaction (the ~300 line claim builder) are outside the verifier; the unit extracts, on every run, the three expressions that carry the number - `obscured = factor ^ (INITIAL_COMMITMENT_NUMBER - n)` with the sequence field, the locktime field, and the decoding expression of the monitor - verbatim, as three functions; `commitment_tx.input[0].sequence.0` and `commitment_tx.lock_time.to_consensus_u32()` are read from a transaction skeleton {input: [TxIn{sequence: Sequence(u32)}], lock_time: LockTime(u32)}; everything else of the three functions is dropped and not claimed
-//! trusted: R15 (deep slice): the per-HTLC block of the revoked-commitment branch of check_spend_counterparty_transaction verbatim (consistency test, RevokedHTLCOutput::build, deadline choice, build_package, push); RevokedHTLCOutput::build and PackageTemplate::build_package are external_body constructors recording their arguments; keys, txid, amounts are opaque identities; the early `return` of the enclosing function becomes `return false`; the to_self output loop, key derivation and fail_unbroadcast_htlcs! are dropped and not claimed
+//! trusted: R15 (deep slice): the per-HTLC block of the revoked-commitment branch of check_spend_counterparty_transaction verbatim (consistency test, RevokedHTLCOutput::build, deadline choice, build_package, push); RevokedHTLCOutput::build and PackageTemplate::build_package are external_body constructors recording their arguments; keys, txid, amounts are opaque identities; the early `return` of the enclosing function becomes `return false`; and likewise the per-output block of the loop that finds the cheater's own (revokeable) balance output; `idx.try_into().expect(..)` is the external_body wrapper usize_to_u32 (R8); key derivation, the script construction and fail_unbroadcast_htlcs! are dropped and not claimed
 //! plemma: C06 lemma_commitment_number_roundtrip: decode(sequence(n, f), locktime(n, f), f) == n for all n < 2^48 and f < 2^48 (bit-vector proof over the extracted expressions' contracts)
 //! assume: commitment numbers and the obscuring factor are < 2^48 (INITIAL_COMMITMENT_NUMBER = 2^48 - 1; the monitor asserts factor <= 2^48 at construction)
 use vstd::prelude::*;
@@ -20,7 +20,10 @@ impl LockTime {
 #[derive(Clone, Copy)] pub struct Amount(pub u64);
 impl vstd::std_specs::cmp::PartialEqSpecImpl for Amount { open spec fn obeys_eq_spec() -> bool { true } open spec fn eq_spec(&self, other: &Amount) -> bool { self.0 == other.0 } }
 impl PartialEq for Amount { fn eq(&self, o: &Amount) -> (r: bool) { self.0 == o.0 } }
-pub struct TxOut { pub value: Amount }
+#[derive(Clone, Copy)] pub struct ScriptBuf(pub u64);
+impl vstd::std_specs::cmp::PartialEqSpecImpl for ScriptBuf { open spec fn obeys_eq_spec() -> bool { true } open spec fn eq_spec(&self, other: &ScriptBuf) -> bool { self.0 == other.0 } }
+impl PartialEq for ScriptBuf { fn eq(&self, o: &ScriptBuf) -> (r: bool) { self.0 == o.0 } }
+pub struct TxOut { pub value: Amount, pub script_pubkey: ScriptBuf }
 pub struct Transaction { pub input: Vec<TxIn>, pub lock_time: LockTime, pub output: Vec<TxOut> }
 pub struct MonitorSkeleton { pub commitment_transaction_number_obscure_factor: u64 }
 
@@ -125,7 +128,15 @@ impl RevokedHTLCOutput {
     #[verifier::external_body] pub fn build(per_commitment_point: PublicKey, per_commitment_key: SecretKey, htlc: HTLCOutputInCommitment, channel_parameters: ChannelTransactionParameters, height: u32) -> (r: RevokedHTLCOutput)
         ensures r.htlc == htlc { unimplemented!() }
 }
-pub enum PackageSolvingData { RevokedHTLCOutput(RevokedHTLCOutput), Other }
+pub struct RevokedOutput { pub amount: Amount }
+impl RevokedOutput {
+    #[verifier::external_body] pub fn build(per_commitment_point: PublicKey, per_commitment_key: SecretKey, amount: Amount, channel_parameters: ChannelTransactionParameters, height: u32) -> (r: RevokedOutput)
+        ensures r.amount == amount { unimplemented!() }
+}
+pub enum PackageSolvingData { RevokedHTLCOutput(RevokedHTLCOutput), RevokedOutput(RevokedOutput), Other }
+pub struct CounterpartyCommitmentParameters { pub on_counterparty_tx_csv: u16 }
+pub struct JusticeMonitor { pub counterparty_commitment_params: CounterpartyCommitmentParameters }
+#[verifier::external_body] pub fn usize_to_u32(x: usize) -> (r: u32) requires x <= u32::MAX ensures r == x { unimplemented!() }
 // PackageTemplate::build_package (chain/package.rs) builds a one-input package for (txid, vout) with the given counterparty_spendable_height: recorded as is
 pub struct PackageTemplate { pub txid: Txid, pub vout: u32, pub data: PackageSolvingData, pub counterparty_spendable_height: u32 }
 impl PackageTemplate {
@@ -167,5 +178,38 @@ impl PackageTemplate {
 //@with
     commitment_txid, 0,
 //@end
+
+impl JusticeMonitor {
+//@extract lightning/src/chain/channelmonitor.rs :: impl ChannelMonitorImpl :: fn check_spend_counterparty_transaction
+//@slice R15
+    for (idx, outp) in commitment_tx.output.iter().enumerate() { $body:any }
+//@with
+    fn justice_claim_for_balance_output(&self, idx: usize, outp: &TxOut, revokeable_p2wsh: ScriptBuf, commitment_txid: Txid, height: u32, per_commitment_point: PublicKey, per_commitment_key: SecretKey,
+        funding_spent: &FundingScope, claimable_outpoints: &mut Vec<PackageTemplate>, to_counterparty_output_info_: Option<(u32, Amount)>) -> Option<(u32, Amount)> {
+        let mut to_counterparty_output_info = to_counterparty_output_info_;
+        $body
+        to_counterparty_output_info
+    }
+//@rw R8
+    idx.try_into().expect($m)
+//@with
+    usize_to_u32(idx)
+//@ret r
+//@requires
+    idx <= u32::MAX, height <= 0x7fff_ffff,
+//@ensures P C06 the-cheaters-own-balance-output-gets-a-justice-claim-that-must-confirm-before-its-csv-delay-runs-out
+    outp.script_pubkey == revokeable_p2wsh ==> final(claimable_outpoints)@.len() == old(claimable_outpoints)@.len() + 1
+        && final(claimable_outpoints)@.drop_last() == old(claimable_outpoints)@
+        && ({ let p = final(claimable_outpoints)@.last();
+              p.txid == commitment_txid && p.vout == idx && p.data == PackageSolvingData::RevokedOutput(RevokedOutput { amount: outp.value })
+              && p.counterparty_spendable_height == height + self.counterparty_commitment_params.on_counterparty_tx_csv })
+        && r == Some((idx as u32, outp.value)),
+    outp.script_pubkey != revokeable_p2wsh ==> final(claimable_outpoints)@ == old(claimable_outpoints)@ && r == to_counterparty_output_info_,
+//@mutant balance_claim_deadline_ignores_the_csv_delay
+    height + self.counterparty_commitment_params.on_counterparty_tx_csv as u32,
+//@with
+    height,
+//@end
+}
 }
 fn main() {}
